@@ -93,6 +93,7 @@ def close_specs(ctx):
         for at in range(0, npos + 1):
             sp = dict(s)
             sp["inject"] = {"at": at, "ops": [["close"]]}
+            sp["exc_rot"] = ctx.seed + at       # exception class of failing connection attempts (see vloop.Gateway._failure)
             inj.append((sp, {"client": m["client"], "cb": m["cb"], "shape": m["shape"], "at": at}))
     iobs = vloop.run_batch([dict(sp) for sp, _ in inj], _repo(), wall=6, procs=3)
     for (sp, m), o in zip(inj, iobs):
@@ -199,10 +200,6 @@ def judge(o, spec, twin=None):
                                                            f"{cl['returned']:.2f}): at {[round(t, 2) for t, _ in o['rcb'][cl['rcb_at_return']:]]}"}
         ws = o["writers"]
         cur = o["cur_wid"]
-        # guard of C14_link_shut_*: a serial port whose configuration drain() raised inside _connect_impl is left open by
-        # the library (reported finding `serial-config-drain-leak`); `strict_link` in the spec switches the guard off
-        exempt = set() if spec.get("strict_link") else {w[1] for w in (o.get("wfaults") or []) if w[2] == "drain" and w[3] != 1}
-        ws = [dict(w, closed=True) if w["wid"] in exempt else w for w in ws]
         if cur >= 0 and not ws[cur]["closed"]:
             return {"key": "close:link-open", "what": f"{c}: the current connection (writer {cur}) is still open after close()"}
         if ac is not None:
